@@ -58,6 +58,7 @@ func writeChunk(c IndexChunk, ss *selfSeed, f *os.File, blocksize uint64, s Stor
 	// Record this chunk having been pulled from the store
 	stats.incChunksFromStore()
 	// Pull the (compressed) chunk from the store
+	verifYield("assemble.beforeGetChunk")
 	chunk, err := s.GetChunk(c.ID)
 	if err != nil {
 		return err
@@ -170,6 +171,7 @@ func AssembleFile(ctx context.Context, name string, idx Index, s Store, seeds []
 		defer f.Close()
 		g.Go(func() error {
 			for job := range in {
+				verifYield("assemble.worker.job")
 				pb.Add(job.segment.lengthChunks())
 				if job.source != nil {
 					// If we have a seedSegment we expect 1 or more chunks between
@@ -209,6 +211,7 @@ func AssembleFile(ctx context.Context, name string, idx Index, s Store, seeds []
 					stats.addBytesCloned(cloned)
 					// Record this segment's been written in the self-seed to make it
 					// available going forward
+					verifYield("assemble.worker.beforeAdd")
 					ss.add(job.segment)
 					continue
 				}
@@ -229,6 +232,7 @@ func AssembleFile(ctx context.Context, name string, idx Index, s Store, seeds []
 				// Even if we already confirmed that this chunk is present in the
 				// self-seed, we still need to record it as being written, otherwise
 				// the self-seed position pointer doesn't advance as we expect.
+				verifYield("assemble.worker.beforeAdd")
 				ss.add(job.segment)
 			}
 			return nil
@@ -279,6 +283,7 @@ func AssembleFile(ctx context.Context, name string, idx Index, s Store, seeds []
 	var interrupted bool
 loop:
 	for _, segment := range plan {
+		verifYield("assemble.feeder")
 		select {
 		case <-ctx.Done():
 			interrupted = true
